@@ -43,6 +43,13 @@ def run_forked(fn, *args, timeout=120, **kwargs):
         os.close(r)
         code = 0
         try:
+            # the compiled engine prints warnings straight to fd 1/2: keep the check's output clean
+            dn = os.open(os.devnull, os.O_WRONLY)
+            os.dup2(dn, 1)
+            os.dup2(dn, 2)
+        except OSError:
+            pass
+        try:
             try:
                 signal.alarm(timeout)
             except Exception:
